@@ -994,6 +994,7 @@ func (s *Service) runWith(wid string, cb func()) {
 	// The service may have been closed since the state was checked. Adding
 	// work then would revive the nil workqueue and leave workers waiting.
 	if s.workqueue == nil {
+		verifNote("s.refused.closed", wid, 0)
 		s.mu.Unlock()
 		return
 	}
